@@ -477,6 +477,8 @@ def run(pid, tier_, replay=None):
     else:
         viol, outs, nev, notes = otap.execute(plan, shards=12, timeout=1500 if quick else 7000, binp=binp)
     alloc = otap.allocator_replay(binp, quick, seed) if pid == "C14" else None
+    if alloc is not None:
+        alloc["unbounded"] = otap.allocator_unbounded()
     dct = None
     if pid in ("C13", "C04", "C08"):
         # the dictionary state machine: Dictionary.tla exhaustively, and DictObs.tla on every dictionary column of every recorded stream
@@ -516,6 +518,8 @@ def run(pid, tier_, replay=None):
                               % (clause, rec["limit"], json.dumps(rec["ops"])), replay=dict(property="C14", clause=clause, allocator_case=rec)))
         if alloc["model_issue"]:
             model_issues.append(alloc["model_issue"])
+        if not alloc["unbounded"]["ok"]:
+            model_issues.append("AllocatorInd.tla: " + str(alloc["unbounded"]["problem"]))
     # coverage: distinct non-trivial streams = distinct (schema-evolution events, dictionary events, outcome) signatures
     sigs = set()
     agg = {}
@@ -556,7 +560,8 @@ def run(pid, tier_, replay=None):
             print("DRIFT (not a verdict): Dictionary.tla does not explain column %s of stream %s at batch %s: %s" % (d[1], plan[d[0] - 1]["id"], d[2], d[3]))
     if alloc:
         cov.update(states=alloc["states"], transitions=alloc["generated"],
-                   allocator=dict(spec="Allocator.tla / AllocObs.tla", behaviours_replayed=alloc["behaviours"], real_runs=alloc["runs"],
+                   allocator=dict(spec="Allocator.tla / AllocObs.tla / AllocatorInd.tla (Apalache, unbounded) / MC_AllocatorRef.tla", unbounded=alloc["unbounded"]["steps"],
+                                  behaviours_replayed=alloc["behaviours"], real_runs=alloc["runs"],
                                   conformance_drift=len(alloc["drift"]), sample=alloc["sample"]))
         cov["traces_validated_against_impl"] = cov["traces_validated_against_impl"] + alloc["runs"] - len(alloc["drift"])
         if alloc["drift"]:
